@@ -426,6 +426,82 @@ theorem one_shot (cfg : Cfg) (view : View) (h' : HState) (it : Iter) (top' t' : 
   have hw : wake cfg h' it = .stop := by unfold wake; simp [hd, hn, hi]
   unfold Next; rw [hw]; exact fun h => h
 
+/-! ### "unless idling postpones it": which events reset idling (finding C10-F3) -/
+
+/-- Every essential change resets idling (the direction the idle clause needs; `idle_law_full` is its
+    sequence-level form). -/
+theorem essential_resets (lastHandled seen : Option Nat) (new : Nat)
+    (h : isEssential lastHandled seen new = true) : resetsIdle lastHandled seen new = true := by
+  unfold isEssential at h
+  unfold resetsIdle resetCond
+  cases seen with
+  | none => simp at h ⊢; exact h
+  | some s => simp at h ⊢; exact Or.inr h
+
+/-- FULL statement (false of the code, see the witness below): `resetsIdle lastHandled seen new = isEssential
+    lastHandled seen new` for every event — only essential changes reset idling.
+    Proved under the guard: it is the first event of the memory, or the event carries its own essence as last
+    handled (the object is handled, nothing is pending). -/
+theorem reset_iff_essential_partial (lastHandled seen : Option Nat) (new : Nat)
+    (hg : seen = none ∨ lastHandled = some new) :
+    resetsIdle lastHandled seen new = isEssential lastHandled seen new := by
+  unfold resetsIdle resetCond isEssential
+  rcases hg with hg | hg
+  · subst hg; simp
+  · subst hg; cases seen <;> simp
+
+/-- The guard is necessary: an event that shows the SAME essence as the previous one (not a change) resets idling
+    when nothing is stored as last handled (operators with timers/daemons only), and when a change is not handled
+    yet (last handled = 3, the object is at 7 and was at 7 before). -/
+theorem nonessential_reset_witness :
+    (isEssential none (some 7) 7 = false ∧ resetsIdle none (some 7) 7 = true) ∧
+    (isEssential (some 3) (some 7) 7 = false ∧ resetsIdle (some 3) (some 7) 7 = true) := by decide
+
+/-- FULL statement (false of the code): with no essential change after the first event `e0`, the run after a
+    success starts exactly at `max (patched + interval) (e0.t + idle)` — idling postpones it only as far as the
+    last essential change requires.
+    Proved under the guard `Settled e0 es`: every later event shows `e0`'s essence AND carries it as last handled. -/
+theorem interval_exact_when_settled_partial (cfg : Cfg) (created spawn : Int) (e0 : Ev) (es : List Ev) (its : List Iter)
+    (h : Sched cfg (viewOf created (e0 :: es)) spawn its)
+    (n : Nat) (a b : Iter) (r : Result) (i idle : Int) (ha : its[n]? = some a) (hb : its[n + 1]? = some b)
+    (hr : a.res = some r)
+    (hc : classify cfg (attemptOf (stateAt cfg spawn its n) a) (runtimeOf (stateAt cfg spawn its n) a) r = .done)
+    (hi : cfg.interval = some i) (hpos : 0 < i) (hs : cfg.sharp = false) (hidle : cfg.idle = some idle)
+    (hset : Settled e0 es) (hr0 : resetsIdle e0.lastHandled none e0.ess = true)
+    (h1 : created ≤ e0.recv) (h2 : e0.recv ≤ e0.t) (h3 : e0.t ≤ a.patched + i) :
+    b.start = max (a.patched + i) (e0.t + idle) := by
+  have hl := (interval_law cfg _ spawn its h n a b r i ha hb hr hc hi hpos hs).2.2.2.2.2 idle hidle
+  refine hl.2.2 e0.t (fun u hu => ?_)
+  rw [viewOf_settled created e0 es hset u]
+  exact viewOf_single created e0 u hr0 h1 h2 (by omega)
+
+/-- The guard is necessary (corpus/C10/F3.json in small): interval 64, idle 128, an object created at 0 and never
+    changed (one essential change: `essentialTimes = [0]`); nothing is stored as last handled. The first run is at
+    128, its result is patched at 129, the patch's own event (130: same essence) resets idling: the next run is at
+    258 = 130 + idle, not at `max (129 + 64) (0 + 128) = 193`. -/
+theorem interval_postponed_by_own_patch_witness :
+    ∃ (cfg : Cfg) (evs : List Ev) (a b : Iter),
+      Sched cfg (viewOf 0 evs) 0 [a, b] ∧ essentialTimes evs = [0] ∧ a.res = some .ok ∧
+      cfg.interval = some 64 ∧ cfg.idle = some 128 ∧ a.patched + 64 = 193 ∧ b.start = 258 := by
+  refine ⟨{ interval := some 64, sharp := false, idle := some 128, initialDelay := none, backoff := 64 },
+    [⟨0, 0, 1, none⟩, ⟨130, 130, 1, none⟩],
+    { top := 0, start := 128, ended := 128, patched := 129, res := some .ok },
+    { top := 193, start := 258, ended := 258, patched := 258, res := some .ok }, ?_, by decide, rfl, rfl, rfl, rfl, rfl⟩
+  exact schedCheck_sound (extends_total _) (n := 8) (by decide)
+
+/-! ### how a timer task ends, and whether the timer can come back (finding C10-F4) -/
+
+/-- A task that was asked to stop (filters mismatch, pause) leaves the timer re-spawnable. -/
+theorem stopped_stays_respawnable : respawnable (foreverAfter false .stopped) = true := by decide
+
+/-- A one-shot timer that has ended, and — the finding — a timer whose post-run patch RAISED, are never spawned
+    again in this operator process: `_runner` cannot tell the two from each other (`stopper.reason is None`). The
+    schedule theorems are about prefixes (`Sched`): an exception out of `patch_and_check` is the one truncation of
+    the sequence that nobody asked for. -/
+theorem raised_is_never_respawned_witness (already : Bool) :
+    respawnable (foreverAfter already .raised) = false ∧ respawnable (foreverAfter already .returned) = false := by
+  cases already <;> decide
+
 /-! ### non-vacuity: concrete instances meeting the hypotheses -/
 
 section Examples
